@@ -138,7 +138,7 @@ func (n *Node) UpdateID(newID NodeID) error {
 	}
 
 	for _, tmpBus := range buses {
-		tmpBus.nodeIDs.modifyKey(n.id, newID, tmpBus.entityID)
+		tmpBus.nodeIDs.modifyKey(n.id, newID, n.entityID)
 	}
 
 	n.id = newID
